@@ -199,3 +199,113 @@ func zzC19_demux() {
 	}
 	vReach("C19_demux")
 }
+
+// zzC19_heap: more than three streams with buffered data (the stream heap then has inner nodes with
+// children). Stream 1's header arrives first; while the library waits for its body, whole messages of
+// N-1 other streams (body 32 or 52 bytes: case split) arrive in a case-split order and are buffered;
+// then stream 1's 88-byte body. Every message must be delivered once, from its own stream.
+func zzC19_heap() {
+	d := vAbstractDict()
+	zzKnownCommand(d, 0, 257)
+	da, derr := d.FindAVPWithVendor(0, uint32(1), 0)
+	vAssume(derr == nil && da.Data.Type == datatype.OctetStringType)
+	n := vLen("streams", 4, vParam("HS", 5))
+	mk := func(stream, bodyLen int) []byte {
+		body := make([]byte, bodyLen)
+		body[3] = 1
+		body[5], body[6], body[7] = byte(bodyLen>>16), byte(bodyLen>>8), byte(bodyLen)
+		for j := 8; j < bodyLen; j++ {
+			body[j] = byte(16 * stream)
+		}
+		mb := zzMessageBytes(body, 0x80, 257, 0)
+		hb := uint32(1000 * stream)
+		mb[12], mb[13], mb[14], mb[15] = byte(hb>>24), byte(hb>>16), byte(hb>>8), byte(hb)
+		return mb
+	}
+	be := &zzSCTPBackend{}
+	zzSCTP = be
+	first := mk(1, 88)
+	be.chunks = append(be.chunks, zzChunk{stream: 1, data: first[:20]})
+	var rest []int
+	for s := 2; s <= n; s++ {
+		rest = append(rest, s)
+	}
+	for len(rest) > 0 {
+		i := vChoice("next", len(rest))
+		s := rest[i]
+		rest = append(rest[:i:i], rest[i+1:]...)
+		be.chunks = append(be.chunks, zzChunk{stream: uint16(s), data: mk(s, [2]int{32, 52}[vChoice("bodylen", 2)])})
+	}
+	be.chunks = append(be.chunks, zzChunk{stream: 1, data: first[20:]})
+	msc := &SCTPConn{s: &streams{}, currStream: InvalidStreamID, writerStream: InvalidStreamID}
+	seen := make([]int, n+1)
+	for i := 0; i < n+1; i++ {
+		msc.ResetCurrentStream()
+		m, err := ReadMessage(msc, d)
+		if err != nil {
+			vAssert(i == n, "no message is lost: the loop ends only after every stream's message was delivered")
+			break
+		}
+		vAssert(i < n, "no message is duplicated or invented")
+		st := int(m.MessageStream())
+		vAssert(st >= 1 && st <= n && m.Header.HopByHopID == uint32(1000*st), "each message is assembled from its own stream and reports it")
+		if st < 1 || st > n {
+			return
+		}
+		seen[st]++
+		vAssert(len(m.AVP) == 1, "the message's AVP is there")
+		if len(m.AVP) == 1 {
+			for _, x := range m.AVP[0].Data.Serialize() {
+				vAssert(x == byte(16*st), "and its payload comes from its own stream")
+			}
+		}
+	}
+	for st := 1; st <= n; st++ {
+		vAssert(seen[st] == 1, "every stream's message is delivered exactly once")
+	}
+	vReach("C19_heap")
+}
+
+// zzC19_response: the same through the server side's connection object (conn / response) on a
+// multi-stream transport: two requests on different streams read by conn.readMessage, answered through
+// the connection's writer straight away or only after the other request has been read (case split),
+// with and without a server WriteTimeout (case split): every answer goes to its request's stream.
+func zzC19_response() {
+	d := vAbstractDict()
+	zzKnownCommand(d, 0, 257)
+	be := &zzSCTPBackend{}
+	zzSCTP = be
+	s1, s2 := uint16(1+vChoice("stream1", 3)), uint16(1+vChoice("stream2", 3))
+	be.chunks = append(be.chunks, zzChunk{stream: s1, data: zzPlainMessage(257, 0x80, 0, 101)}, zzChunk{stream: s2, data: zzPlainMessage(257, 0x80, 0, 102)})
+	msc := &SCTPConn{s: &streams{}, currStream: InvalidStreamID, writerStream: InvalidStreamID}
+	srv := &Server{Dict: d}
+	if zzFlag("writeTimeout") {
+		srv.WriteTimeout = time.Second
+	}
+	c, err := srv.newConn(msc)
+	vAssume(err == nil)
+	reply := func(m *Message) {
+		nw := len(be.writes)
+		_, werr := m.Answer(2001).WriteTo(c.writer)
+		vAssert(werr == nil && len(be.writes) == nw+1 && uint(be.writes[nw].stream) == m.MessageStream(), "an answer written through the connection goes to the stream its request arrived on")
+	}
+	m1, e1 := c.readMessage()
+	vAssert(e1 == nil && m1 != nil && m1.MessageStream() == uint(s1), "first request read from its stream")
+	if e1 != nil {
+		return
+	}
+	deferred := zzFlag("deferFirstReply")
+	if !deferred {
+		reply(m1)
+	}
+	m2, e2 := c.readMessage()
+	vAssert(e2 == nil && m2 != nil && m2.MessageStream() == uint(s2), "second request read from its stream")
+	if e2 != nil {
+		return
+	}
+	if deferred {
+		reply(m1)
+	}
+	reply(m2)
+	vReach("C19_response")
+}
